@@ -129,14 +129,40 @@ def machine : Machine G Req := { step := step, restartG := restartG, restartL :=
 /-- numbers of the stored lists, oldest first -/
 def numbers (g : G) : List Nat := (g.log.map (·.number)).reverse
 
+/-! ## what is served: the list's issuing distribution point and the HTTP handler
+
+  /repo/authority/tls.go `GenerateCertificateRevocationList`: the critical issuingDistributionPoint extension
+  carries `CRL.IDPurl` when configured, otherwise `a.config.Audience("/1.0/crl")[0]` = `https://<first DNS name>/1.0/crl`
+  (`onlyContainsUserCerts`); issuer and authority key identifier are the issuing certificate's (softcas `CreateCRL`).
+  /repo/api/crl.go `CRL` (mounted at `/crl` and `/1.0/crl`): 200 with `Expires` = the stored list's ExpiresAt (= its
+  NextUpdate), `Content-Type` application/pkix-crl (DER) or application/x-pem-file (`?pem`); the error of
+  `GetCertificateRevocationList` otherwise (404 when publication is disabled, 500 when nothing is stored). -/
+
+def idpURL (configured dns : Str) : Str :=
+  if configured = [] then Verif.s "https://" ++ dns ++ Verif.s "/1.0/crl" else configured
+
+structure Resp where
+  status : Nat
+  expires : Nat        -- the Expires header as a time (0 when there is none)
+  pem : Bool           -- Content-Type application/x-pem-file, body PEM; else application/pkix-crl, body DER
+  body : Option CRLRec -- the list in the body
+  deriving Repr, DecidableEq
+
+def crlHandler (enabled : Bool) (g : G) (pem : Bool) : Resp :=
+  if !enabled then { status := 404, expires := 0, pem := false, body := none }
+  else match g.crl with
+    | none => { status := 500, expires := 0, pem := false, body := none }
+    | some c => { status := 200, expires := c.nextUpdate, pem := pem, body := some c }
+
 /-! ## reload: a new authority on the same database, the old one closed for reload
 
   /repo/ca/ca.go `CA.Reload` builds a new `Authority` with `WithDatabase(ca.auth.GetDatabase())` — new
   configuration (cache duration), new `crlMutex`, start-up generation, new ticker — and then calls
   /repo/authority/authority.go `CloseForReload` on the old one, which stops the old ticker and
   closes `crlStopper` (guarded by `a.crlTicker != nil`).  The old authority's requests are the ticks
-  its ticker would still deliver; they run the same `step`, but under the old mutex and the old
-  cache duration.  `oldStopped` = the old generator goroutine has been stopped: a tick that has
+  its ticker would still deliver (or requests of it that are still in flight); they run the same `step`
+  with the old cache duration, under the process-wide mutex (`shared`, the code since 7329bb4) or under the old
+  authority's own mutex (the code before).  `oldStopped` = the old generator goroutine has been stopped: a tick that has
   not fired yet never fires.  (Requests of the old authority that are in flight at the very moment
   of the reload are outside this model: see notes.) -/
 
@@ -145,22 +171,29 @@ structure G2 where
   oldLock : Bool     -- the replaced authority's crlMutex
   oldCache : Nat     -- the replaced authority's cache duration
   oldStopped : Bool  -- CloseForReload stopped its generator
+  shared : Bool := true  -- one crlMutex for every Authority of the process (/repo since 7329bb4); false = one per
+                         -- Authority (before: `oldLock` is then the replaced authority's own mutex)
   deriving Repr, DecidableEq
 
 structure Req2 where
-  old : Bool         -- a tick of the replaced authority's generator
+  old : Bool         -- a request of the replaced authority (a tick of its generator, or a request it is still serving)
   r : Req
+  stop : Bool := false  -- not a request at all: the moment `CloseForReload` stops the old generator (its `r` is inert)
   deriving Repr, DecidableEq
 
+/-- how a request of the replaced authority sees the state: its own cache duration, and the mutex it locks -/
+def oldView (g2 : G2) : G := { g2.g with lock := if g2.shared then g2.g.lock else g2.oldLock, cache := g2.oldCache }
+
 def step2 (g2 : G2) (q : Req2) : G2 × Req2 :=
-  if q.old then
+  if q.stop then ({ g2 with oldStopped := true }, q)
+  else if q.old then
     if g2.oldStopped ∧ q.r.pc = 0 ∧ q.r.out = .pending then
       (g2, { q with r := { q.r with out := .dropped } })
     else
-      ({ g2 with g := { (step { g2.g with lock := g2.oldLock, cache := g2.oldCache } q.r).1 with
-                        lock := g2.g.lock, cache := g2.g.cache },
-                 oldLock := (step { g2.g with lock := g2.oldLock, cache := g2.oldCache } q.r).1.lock },
-       { q with r := (step { g2.g with lock := g2.oldLock, cache := g2.oldCache } q.r).2 })
+      ({ g2 with g := { (step (oldView g2) q.r).1 with
+                        lock := if g2.shared then (step (oldView g2) q.r).1.lock else g2.g.lock, cache := g2.g.cache },
+                 oldLock := if g2.shared then g2.oldLock else (step (oldView g2) q.r).1.lock },
+       { q with r := (step (oldView g2) q.r).2 })
   else ({ g2 with g := (step g2.g q.r).1 }, { q with r := (step g2.g q.r).2 })
 
 /-- a restart of the machine ends both authorities; what starts afterwards is one process -/
